@@ -153,6 +153,13 @@ func (g *swGen) actions(n int) []byte {
 		case 5, 6: // set_field: 4-byte action header, one OXM TLV, zero padding to a multiple of 8
 			d := swOxms[g.r.Intn(len(swOxms))]
 			val := g.bytes(d.width)
+			if d.class == 0xffff {
+				// experimenter class: the OXM length covers the experimenter id, which follows the header
+				l := 4 + 4 + 4 + d.width
+				pad := (8 - l%8) % 8
+				x.u16(25, l+pad).u16(d.class).u8(d.field<<1, 4+d.width).u32(0x4f4e4600).raw(val).z(pad)
+				break
+			}
 			l := 4 + 4 + d.width
 			pad := (8 - l%8) % 8
 			x.u16(25, l+pad).u16(d.class).u8(d.field<<1, d.width).raw(val).z(pad)
